@@ -110,7 +110,7 @@ def gen_case(rng, nrec, small=True, nested=False, minstr=0):
     def entry(fi, depth):
         addr = BASE + syms[fi][0] + (0 if nested else rng.choice([0, 0, 1, 0x7f]))
         a = specs[fi][0]
-        if a and rng.random() < 0.85:
+        if a and (nested or rng.random() < 0.85):
             recs.append(dict(hdr(0, depth, addr, 1), pl=("args", gen_vals(rng, a, small, minstr))))
         else:
             recs.append(dict(hdr(0, depth, addr, 0), pl=("none",)))
@@ -118,7 +118,7 @@ def gen_case(rng, nrec, small=True, nested=False, minstr=0):
 
     def exit_(fi, depth, addr):
         r = specs[fi][1]
-        if r and rng.random() < 0.85:
+        if r and (nested or rng.random() < 0.85):
             recs.append(dict(hdr(1, depth, addr, 1), pl=("args", gen_vals(rng, r, small, minstr))))
         else:
             recs.append(dict(hdr(1, depth, addr, 0), pl=("none",)))
@@ -516,7 +516,7 @@ def e2e(ctx, objdir):
     rng = ctx.rng
     ndirs = ctx.n(1, 3)
     for di in range(ndirs):
-        case = gen_case(rng, ctx.n(6, 14), small=True, nested=True, minstr=3)
+        case = gen_case(rng, ctx.n(10, 16), small=True, nested=True, minstr=3)
         root = os.path.join(ctx.scratch, "e2e%d" % di)
         os.makedirs(root)
         write_dir(case, os.path.join(root, "src"))
